@@ -93,6 +93,12 @@ def main(argv=None):
         case = mod.gen(core.case_rng(a.seed, a.prop, a.only), a.tier, a.only)
         run_one(a.only, case)
     else:
+        from rv.prelude import unrelated_history
+
+        prelude_after = 0 if a.shard % 2 == 0 else 5  # both orders: unrelated calls first / some cases first
+        n_run = 0
+        if prelude_after == 0:
+            unrelated_history(ctx)
         if hasattr(mod, "pinned"):
             for i, case in enumerate(mod.pinned(a.tier)):
                 if i % a.nshards == a.shard:
@@ -103,6 +109,9 @@ def main(argv=None):
                 continue
             case = mod.gen(core.case_rng(a.seed, a.prop, k), a.tier, k)
             run_one(k, case)
+            n_run += 1
+            if prelude_after and n_run == prelude_after:
+                unrelated_history(ctx)
         if hasattr(mod, "finish"):
             mod.finish(ctx)
 
